@@ -194,3 +194,16 @@ prop('C17', units=['syn', 'dg', 'idx', 'ut'], level='proof',
                   'UT: rowan token API model (tokens of a file in source order; a node covers a contiguous run; last_token / prev_token walk the file sequence; node range spans its run); SyntaxKind::is_trivia is a function of the kind',
                   'UT: the node passed to range_excluding_trivia contains a non-trivia token (tree-shape fact of the parser, assumed at the call sites in folding_range.rs and document_link.rs)',
                   'rowan computes node and token ranges from the lengths of the token texts it was given (not re-verified)'])
+
+prop('C18', units=['fr', 'ut'], level='proof',
+     explanation=('Partial: the folding-range half. Unit FR moves the filter closure of ide::handlers::folding_range::exec into a function and proves that it answers Some exactly for class, def, defset, '
+                  'foreach, if, let and multiclass statement nodes (the list of the property) and that the range is [first token of the statement, end of its last non-trivia token] - the latter through '
+                  'the contract of utils::range_excluding_trivia, which unit UT proves on the real code over an assumed model of rowan\'s token sequence. One range per such descendant, in document '
+                  'order, is the assumed semantics of rowan descendants() + filter_map/map/collect (outlined, R14); "pairwise nested or disjoint" then follows from the tree structure (rowan, assumed). '
+                  'NOT decided: the document-symbol half (outline of classes / defs / defsets / multiclasses with their children) - iterator chains over the symbol map held in locals of adapter types, '
+                  'outside what the rewrites can outline mechanically.'),
+     assumptions=['Verus/Z3/rustc sound; extraction faithful (round-trip audit)',
+                  'rowan token API model of unit UT; a statement node starts with its keyword token (tree shape of the parser)',
+                  'FR assumes for utils::range_excluding_trivia the clauses UT proves (same predicates has_token / is_trimmed_range)',
+                  'descendants().filter_map(f).map(g).collect() yields g(r) for every descendant n with f(n) == Some(r), in document order (R14 helper)',
+                  'nodes of a rowan tree are nested or disjoint'])
